@@ -38,7 +38,7 @@ class C08(PropBase):
                    "BEFORE_OPEN may become OPENED on a refused call (pinned by tests/test_session.py)",
                    "whether a server accepts a non-bind request while BINDING is not stated: either outcome is followed",
                    "drains are always complete here (partial drains are C12's subject) so that splices land on PDU boundaries"]
-    RUNS = {"quick": 3200, "thorough": 100000}
+    RUNS = {"quick": 10000, "thorough": 150000}
     STEPS = {"quick": 90, "thorough": 180}
     REQUIRED_REACH = ("client_bind_while_busy", "server_got_bind_while_busy", "client_send_while_BI", "server_send_while_BI",
                       "sasl_round_then_rebind", "bind_response_refused_while_BI", "client_closed_calls", "server_closed_calls",
